@@ -221,6 +221,14 @@ def document(input_file: str, settings: Settings):
                             ""))):
                     subdirs.remove(subdir)
 
+            # os.walk() lists symbolic links to directories among the subdirs
+            # but only descends into them when following links, do not list
+            # (toctree) what is not walked
+            if not settings.input.follow_symlinks:
+                for subdir in copy.copy(subdirs):
+                    if os.path.islink(os.path.join(root, subdir)):
+                        subdirs.remove(subdir)
+
             # Check if any files match the exclusion filters
             # If they do, remove them and the rest of the processing
             # will ignore them
